@@ -276,15 +276,18 @@ PROPS["C14"] = dict(
 
 PROPS["C12"] = dict(
     design_ref="DESIGN.md 4 (C12), 8.5",
+    jobs=3,  # the insertion instances need ~15 GB each (heap-backed Vec<Bucket> updated at a symbolic slot)
     stubs=[CLOCK, STUB_RS],
-    assumptions=["table built directly: 2 buckets, local id 0..0, 2 arbitrary slots per bucket (coarse ages), one router address"],
+    assumptions=["table built directly: 2 buckets, local id 0..0; bucket 0 holds one identity in an arbitrary state (coarse ages) and 7 free slots; "
+                 "one name per response; at most one insertion per instance (F21/F22 cost)"],
     outside=["'receiving a query never adds its sender' and the routing of responses by action prefix: handler.rs:193-393 (F7)",
-             "node lists longer than 2 names"],
+             "node lists longer than 1 name; names that make a bucket split"],
     harnesses=[
-        H("c12_add_nodes_fresh_and_own_id", "table", Q, 1500, "table standings symbolic; names = (fresh identity, the local id)", "one add_nodes; unwind 21", ["RoutingTable::add_nodes", "RoutingTable::add_node", "Bucket::add_node", "Node::as_questionable"]),
-        H("c12_add_nodes_router_and_existing", "table", Q, 1500, "names = (a router's address with a fresh id, an identity already stored in arbitrary standing)", "one add_nodes", ["RoutingTable::add_nodes"]),
-        H("c12_add_nodes_alias_of_responder", "table", Q, 1500, "names = (a fresh id on the responder's own address, the local id)", "one add_nodes", ["RoutingTable::add_nodes"]),
-        H("c12_add_nodes_duplicate_names", "table", Q, 1500, "names = the same fresh identity twice", "one add_nodes", ["RoutingTable::add_nodes"]),
+        H("c12_add_nodes_fresh_name", "table", Q, 1500, "standing of the stored node symbolic; name = a fresh identity", "one add_nodes; unwind 66", ["RoutingTable::add_nodes", "RoutingTable::add_node", "Bucket::add_node", "Node::as_questionable", "Node::update"]),
+        H("c12_add_nodes_own_id", "table", Q, 1500, "name = the local id", "one add_nodes", ["RoutingTable::add_nodes", "leading_bit_count"]),
+        H("c12_add_nodes_router_address", "table", Q, 1500, "name = a router's address with a fresh id (routers = {addr})", "one add_nodes", ["RoutingTable::add_nodes"]),
+        H("c12_add_nodes_existing_by_hearsay", "table", T, 2500, "name = the stored identity (arbitrary standing, incl. dropped as bad), responder = a fresh identity", "one add_nodes", ["RoutingTable::add_nodes", "Node::update"]),
+        H("c12_add_nodes_alias_of_responder", "table", Q, 1500, "name = a fresh id on the responder's own address", "one add_nodes", ["RoutingTable::add_nodes"]),
         H("c19_from_bytes_length_gate", "transaction", Q, 300, "32 symbolic bytes; every prefix length 0..=32", "lengths enumerated", ["TransactionID::from_bytes"]),
     ],
 )
